@@ -23,6 +23,9 @@ EVIDENCE_DIR = os.path.join(ROOT, "evidence")
 REPLAY_DIR = os.path.join(ROOT, "replays")
 KNOWN_FILE = os.path.join(ROOT, "known_findings.json")
 REPO = os.path.realpath(os.environ.get("VERIF_REPO", "/repo"))
+if REPO != os.path.realpath("/repo"):
+    # development runs against a scratch copy (seeded changes) must not overwrite the evidence of /repo
+    EVIDENCE_DIR = os.path.join(ROOT, "replays", "dev-evidence")
 
 MAX_PRINTED = 25
 
